@@ -36,3 +36,54 @@ package vgirpc
 // facts about this reference pattern; that the pattern the code compiles denotes the same
 // language, with the same three capture groups, is an obligation.
 //@ regex semverRegex [C10] == `^(0|[1-9][0-9]*)\.(0|[1-9][0-9]*)\.(0|[1-9][0-9]*)$`
+
+// The three places that dispatch a call consult the gate first. Each reads
+// Server.protocolVersionSet, and when it is set hands the request's declared version (the value
+// and the presence bit of the vgi_rpc.protocol_version metadata key) to checkProtocolVersion;
+// what runs next — the handler dispatch on the pipe, parameter binding on the HTTP routes — is
+// reached only with the gate off or the version admitted, and a refusal answers with the gate's
+// own error. The pipe's __describe__ short-circuit runs before the gate is consulted.
+// (An absent key may reach the gate as absent or as the empty string: neither is canonical.)
+//
+//@ func (*Server).serveOne
+//@   property C10
+//@   pathflag gateRead
+//@   pathflag gateOn
+//@   pathflag gateAdmitted
+//@   pathflag gateCalled
+//@   at load Server.protocolVersionSet mark gateRead
+//@   at load Server.protocolVersionSet setflag gateOn value
+//@   at call (*Server).checkProtocolVersion mark gateCalled
+//@   at call (*Server).checkProtocolVersion setflag gateAdmitted result == nil
+//@   at call (*Server).checkProtocolVersion assert [declared] arg0 == s && (has(req.Metadata, "vgi_rpc.protocol_version") ==> arg2 && arg1 == req.Metadata["vgi_rpc.protocol_version"]) && (!has(req.Metadata, "vgi_rpc.protocol_version") ==> !arg2 || arg1 == "")
+//@   at call (*Server).serveUnary assert [gated_unary] gateRead && (!gateOn || gateAdmitted)
+//@   at call (*Server).serveStream assert [gated_stream] gateRead && (!gateOn || gateAdmitted)
+//@   at call (*Server).serveDescribe assert [describe_exempt] !gateCalled
+//@   at call writeErrorResponse after (*Server).checkProtocolVersion assert [refusal] !gateAdmitted ==> typeof(arg2) == *ProtocolVersionError && as(arg2, "*ProtocolVersionError") == pverr
+//
+//@ func (*HttpServer).handleUnary
+//@   property C10
+//@   pathflag gateCalled
+//@   at call (*Server).checkProtocolVersion mark gateCalled
+//@   at call (*HttpServer).handleDescribe assert [describe_exempt] !gateCalled
+//@   pathflag gateRead
+//@   pathflag gateOn
+//@   pathflag gateAdmitted
+//@   at load Server.protocolVersionSet mark gateRead
+//@   at load Server.protocolVersionSet setflag gateOn value
+//@   at call (*Server).checkProtocolVersion setflag gateAdmitted result == nil
+//@   at call (*Server).checkProtocolVersion assert [declared] arg0 == h.server && (has(req.Metadata, "vgi_rpc.protocol_version") ==> arg2 && arg1 == req.Metadata["vgi_rpc.protocol_version"]) && (!has(req.Metadata, "vgi_rpc.protocol_version") ==> !arg2 || arg1 == "")
+//@   at call deserializeParams assert [gated] gateRead && (!gateOn || gateAdmitted)
+//@   at call (*HttpServer).writeHttpError after (*Server).checkProtocolVersion assert [refusal] !gateAdmitted ==> arg2 == 400 && typeof(arg3) == *ProtocolVersionError && as(arg3, "*ProtocolVersionError") == pverr
+//
+//@ func (*HttpServer).handleStreamInit
+//@   property C10
+//@   pathflag gateRead
+//@   pathflag gateOn
+//@   pathflag gateAdmitted
+//@   at load Server.protocolVersionSet mark gateRead
+//@   at load Server.protocolVersionSet setflag gateOn value
+//@   at call (*Server).checkProtocolVersion setflag gateAdmitted result == nil
+//@   at call (*Server).checkProtocolVersion assert [declared] arg0 == h.server && (has(req.Metadata, "vgi_rpc.protocol_version") ==> arg2 && arg1 == req.Metadata["vgi_rpc.protocol_version"]) && (!has(req.Metadata, "vgi_rpc.protocol_version") ==> !arg2 || arg1 == "")
+//@   at call deserializeParams assert [gated] gateRead && (!gateOn || gateAdmitted)
+//@   at call (*HttpServer).writeHttpError after (*Server).checkProtocolVersion assert [refusal] !gateAdmitted ==> arg2 == 400 && typeof(arg3) == *ProtocolVersionError && as(arg3, "*ProtocolVersionError") == pverr
